@@ -45,7 +45,7 @@ func init() {
 			"(8) set-delegate: every SeriesIDSet operation reaches, on every non-trivial path, the roaring operation its name states with the operands in the stated order (And→roaring.And(s,o), AndNot/Diff→roaring.AndNot(s,o), Merge→FastOr over s and every other, MergeInPlace→Or, Clone→Clone, WriteTo/UnmarshalBinary/UnmarshalBinaryUnsafe→WriteTo/UnmarshalBinary/FromBuffer …) and in-place operations store the result into s.bitmap; " +
 			"(9) set-locks: every locking SeriesIDSet method touches X.bitmap (and calls X.…NoLock) only while holding X's embedded RWMutex, in write mode for a mutation, and returns with no lock held; " +
 			"(10) set-alias: a method that write-locks the receiver while it holds a lock of a *SeriesIDSet argument first excludes receiver == argument (sync.RWMutex is not re-entrant: s.Op(s) would block forever).",
-		NotCovered:  "Conformance of the structures to a map / set / sorted-map model as a function of the stored VALUES is value-level and NOT decided: the robin-hood displacement invariant and swap logic of insert, load-factor arithmetic, the bloom false-positive rate and the double-hashing formula itself, radix prefix splitting / mergeChild / DeletePrefix results and the ordering of Walk/Minimum, the uint64→uint32 truncation of series ids, and the roaring library itself. Lock ORDER between two sets (And takes s then other, Diff other then s) and re-entrant read locks (s.And(s)) only matter under concurrent writers and are not decided; radix.Tree.Insert mutates under a read lock, which is a concurrency question outside this (sequential) property.",
+		NotCovered:  "Conformance of the structures to a map / set / sorted-map model as a function of the stored VALUES is value-level and NOT decided: the robin-hood displacement invariant and swap logic of insert, load-factor arithmetic, the bloom false-positive rate and the double-hashing formula itself, radix prefix splitting / mergeChild / DeletePrefix results and the ordering of Walk (Minimum/Maximum: only the structural clause radix-extremes), the uint64→uint32 truncation of series ids, and the roaring library itself. Lock ORDER between two sets (And takes s then other, Diff other then s) and re-entrant read locks (s.And(s)) only matter under concurrent writers and are not decided; radix.Tree.Insert mutates under a read lock, which is a concurrency question outside this (sequential) property.",
 		Assumptions: []string{"roaring.And/AndNot/FastOr/Or/Clone implement the set operation of their name", "a rule passing means the mechanism is in place on every CFG path, not that the results are value-correct"},
 		Run:         runC36,
 	})
